@@ -130,7 +130,7 @@ def c19(tier):
     done = []
 
     def parse_name(s):
-        if s in ("EOF", "ERROR", "???"):
+        if s in ("EOF", "ERROR", "???", "PANIC"):
             return [s, 0, 0]
         k = s[0]
         i, j = s[1:].split("_")
